@@ -124,6 +124,11 @@ def hstrIsDflt (f : FieldDesc) (v : HVal) : Bool :=
   | .str .dflt _ _ => true
   | .str _ _ _ => false
   | _ => f.dflt == .none
+def hstrSet (v : HVal) : Bool :=
+  match v with
+  | .str .own _ _ => true
+  | .str .empty _ _ => true
+  | _ => false
 def hbinNull (v : HVal) : Bool := match v with | .bin _ .null _ _ => true | .bin _ _ _ _ => false | _ => true
 def hbinDflt (v : HVal) : Bool := match v with | .bin _ .dflt _ _ => true | _ => false
 
@@ -190,7 +195,16 @@ def mergeMsgH (S : Schema) (σ : Nat → Bool) : Nat → HMsg → HMsg → Heap 
   | fuel+1, .mk ety eid es etbl eunk, .mk ty lid ls ltbl lunk, h =>
     let fields := (S.msg ty).fields
     let (ok, es', ls', h') := mergeFieldsH S σ fuel fields fields.length 0 es ls h
-    (ok, .mk ety eid es' etbl eunk, .mk ty lid ls' ltbl lunk, h')
+    if !ok then (false, .mk ety eid es' etbl eunk, .mk ty lid ls' ltbl lunk, h')
+    else if eunk.length > 0 then
+      -- concatenate the unknown-field tables: earlier first; the field data change owner
+      match h'.alloc σ ((eunk.length + lunk.length) * sizeofUnk) with
+      | (none, h1) => (false, .mk ety eid es' etbl eunk, .mk ty lid ls' ltbl lunk, h1)
+      | (some t, h1) =>
+        let h2 := match ltbl with | some i => h1.free i | none => h1
+        let h3 := match etbl with | some i => h2.free i | none => h2
+        (true, .mk ety eid es' none [], .mk ty lid ls' (some t) (eunk ++ lunk), h3)
+    else (true, .mk ety eid es' etbl eunk, .mk ty lid ls' ltbl lunk, h')
 
 def mergeFieldsH (S : Schema) (σ : Nat → Bool) (fuel : Nat) (fields : List FieldDesc) :
     Nat → Nat → List HSlot → List HSlot → Heap → Bool × List HSlot × List HSlot × Heap
@@ -219,9 +233,11 @@ def mergeFieldsH (S : Schema) (σ : Nat → Bool) (fuel : Nat) (fields : List Fi
       let sel : Option (Option Nat) :=
         if fi.isOneof then
           if lcase == 0 then
-            match lookupField fields ecase with
-            | none => none
-            | some j => some (some j)
+            if ecase == 0 then some none
+            else match lookupField fields ecase with
+              | none => none
+              | some j => some (some j)
+          else if lcase == ecase && fi.id == lcase && fi.type == .message then some (some i)
           else some none
         else some (some i)
       match sel with
@@ -247,10 +263,14 @@ def mergeFieldsH (S : Schema) (σ : Nat → Bool) (fuel : Nat) (fields : List Fi
              | .msg (some _), _ => (true, true, es, ls, h)
              | _, _ => (true, false, es, ls, h))
           | .bytes =>
+            if f.hasQ then (true, ecase != 0 && lcase == 0, es, ls, h)
+            else
             (true, (!hbinNull ev && (f.dflt == .none || !hbinDflt ev)) &&
                    (hbinNull lv || (f.dflt != .none && hbinDflt lv)), es, ls, h)
-          | .string => (true, !hstrIsDflt f ev && hstrIsDflt f lv, es, ls, h)
-          | _ => (true, ecase != 0 && lcase == 0, es, ls, h)
+          | .string => (true, hstrSet ev && !hstrSet lv, es, ls, h)
+          | t =>
+            if fi.label == .none && !fi.isOneof then (true, !zeroish t (eraseVal ev) && zeroish t (eraseVal lv), es, ls, h)
+            else (true, ecase != 0 && lcase == 0, es, ls, h)
         match step with
         | (false, _, es1, ls1, h1) => (false, es1, ls1, h1)
         | (true, false, es1, ls1, h1) => next es1 ls1 h1
@@ -347,7 +367,7 @@ def parseMemberH (S : Schema) (σ : Nat → Bool) (fuel : Nat) (fields : List Fi
         match f.group with
         | some g =>
           let q := (hgetSlot slots i).q
-          if q != 0 then
+          if q != 0 && !(q == sm.tag && f.type == .message) then
             match lookupField fields q with
             | none => (false, .mk ty id slots tbl unk, h)
             | some oi =>
